@@ -124,6 +124,10 @@ TIES = {
                    "theorems": ["source_writer_is_model"]},
     "lookup_dec": {"sources": ["pyjelly/parse/lookup.py"], "gen": "LookupDecGen", "tie": "LookupDecTie",
                    "theorems": ["source_reader_is_model", "tie_init_decoder_too_large"]},
+    "hint": {"sources": ["pyjelly/parse/ioutils.py"], "gen": "HintGen", "tie": "HintTie", "theorems": ["source_hint_is_model"]},
+    "options": {"sources": ["pyjelly/options.py", "pyjelly/jelly/rdf_pb2.py"], "gen": "OptionsGen", "tie": "OptionsTie",
+                "theorems": ["source_preset_is_model", "source_type_compat_is_model", "source_stream_types_is_model",
+                             "source_params_version_is_model"]},
 }
 
 
@@ -136,49 +140,60 @@ def anchor_files(pid: str) -> list[str]:
     return []
 
 
-def source_ties(ctx, po: dict, pid: str) -> list[str]:
-    """Regenerate and re-prove every tie whose source files the property is anchored in.
-    Returns the units that no longer check."""
+def _one_tie(unit: str, t: dict, repo: str) -> dict:
     import shutil
     import tempfile
 
+    res = {"unit": unit, "broken": None, "lines": 0}
+    tmpd = tempfile.mkdtemp(prefix="verif_tie_")
+    try:
+        p = subprocess.run([sys.executable, str(VERIF / "translate" / "py2v.py"), repo, unit], capture_output=True, text=True, timeout=120)
+        if p.returncode != 0:
+            res["broken"] = (f"source tie {unit}: the translator cannot read {', '.join(t['sources'])} any more ({p.stderr.strip()[-300:]}); "
+                             f"theorems {t['theorems']} of coq/tie/{t['tie']}.v are not re-proved")
+            return res
+        gen_text = p.stdout
+        res["lines"] = len(gen_text.splitlines())
+        if FORBIDDEN.search(strip_comments(gen_text)):
+            res["broken"] = f"source tie {unit}: forbidden construct in the generated file"
+            return res
+        (Path(tmpd) / f"{t['gen']}.v").write_text(gen_text)
+        cmd = (f"cd {VERIF}/coq && timeout 600 coqc -Q tie PJ.Tie -Q {tmpd} PJ.Gen {tmpd}/{t['gen']}.v && "
+               f"timeout 600 coqc -Q model PJ.Model -Q tie PJ.Tie -Q {tmpd} PJ.Gen -o {tmpd}/{t['tie']}.vo tie/{t['tie']}.v")
+        rc, out = sh(cmd, timeout=1300)
+        closed = out.count("Closed under the global context")
+        if rc != 0 or closed != len(t["theorems"]) or "Axioms:" in out:
+            res["broken"] = (f"source tie {unit}: coq/tie/{t['tie']}.v no longer proves {t['theorems']} against the translation of "
+                             f"{', '.join(t['sources'])} (the source and the model are not shown to be in lock step): {out[-500:]}")
+        return res
+    finally:
+        shutil.rmtree(tmpd, ignore_errors=True)
+
+
+def source_ties(ctx, po: dict, pid: str) -> list[str]:
+    """Regenerate and re-prove every tie whose source files the property is anchored in (in parallel).
+    Returns the units that no longer check."""
+    from concurrent.futures import ThreadPoolExecutor
+
     repo = os.environ.get("VERIF_REPO", "/repo")
     anchors = set(anchor_files(pid))
+    units = [(u, t) for u, t in TIES.items() if anchors & set(t["sources"])]
     broken_units = []
-    for unit, t in TIES.items():
-        if not anchors & set(t["sources"]):
-            continue
+    if not units:
+        return broken_units
+    with ThreadPoolExecutor(max_workers=len(units)) as ex:
+        results = list(ex.map(lambda ut: _one_tie(ut[0], ut[1], repo), units))
+    for (unit, t), res in zip(units, results):
         po["obligations"] += len(t["theorems"])
-        tmpd = tempfile.mkdtemp(prefix="verif_tie_")
-        try:
-            p = subprocess.run([sys.executable, str(VERIF / "translate" / "py2v.py"), repo, unit], capture_output=True, text=True, timeout=120)
-            if p.returncode != 0:
-                po["broken"].append(f"source tie {unit}: the translator cannot read {', '.join(t['sources'])} any more ({p.stderr.strip()[-300:]}); "
-                                    f"theorems {t['theorems']} of coq/tie/{t['tie']}.v are not re-proved")
-                broken_units.append(unit)
-                continue
-            gen_text = p.stdout
-            if FORBIDDEN.search(strip_comments(gen_text)):
-                po["broken"].append(f"source tie {unit}: forbidden construct in the generated file")
-                broken_units.append(unit)
-                continue
-            (Path(tmpd) / f"{t['gen']}.v").write_text(gen_text)
-            cmd = (f"cd {VERIF}/coq && timeout 600 coqc -Q tie PJ.Tie -Q {tmpd} PJ.Gen {tmpd}/{t['gen']}.v && "
-                   f"timeout 600 coqc -Q model PJ.Model -Q tie PJ.Tie -Q {tmpd} PJ.Gen -o {tmpd}/{t['tie']}.vo tie/{t['tie']}.v")
-            rc, out = sh(cmd, timeout=1300)
-            closed = out.count("Closed under the global context")
-            if rc != 0 or closed != len(t["theorems"]) or "Axioms:" in out:
-                po["broken"].append(f"source tie {unit}: coq/tie/{t['tie']}.v no longer proves {t['theorems']} against the translation of "
-                                    f"{', '.join(t['sources'])} (the source and model/Lookup.v are not shown to be in lock step): {out[-500:]}")
-                broken_units.append(unit)
-                continue
-            po["discharged"] += len(t["theorems"])
-            for th in t["theorems"]:
-                po["assumptions"][f"tie/{t['tie']}.{th}"] = "Closed under the global context"
-            ctx.report.notes.append(f"source tie {unit}: {', '.join(t['sources'])} translated to Gallina by translate/py2v.py "
-                                    f"({len(gen_text.splitlines())} lines), coq/tie/{t['tie']}.v re-proved against it: {', '.join(t['theorems'])}")
-        finally:
-            shutil.rmtree(tmpd, ignore_errors=True)
+        if res["broken"]:
+            po["broken"].append(res["broken"])
+            broken_units.append(unit)
+            continue
+        po["discharged"] += len(t["theorems"])
+        for th in t["theorems"]:
+            po["assumptions"][f"tie/{t['tie']}.{th}"] = "Closed under the global context"
+        ctx.report.notes.append(f"source tie {unit}: {', '.join(t['sources'])} translated to Gallina by translate/py2v.py "
+                                f"({res['lines']} lines), coq/tie/{t['tie']}.v re-proved against it: {', '.join(t['theorems'])}")
     return broken_units
 
 
